@@ -54,7 +54,7 @@ P("C22",
   level_text="PARTIAL (completion is sampled). Proved, closed, for every timing table, every tFAW and every oracle: c22_state_machine_legal with its readings "
              "c22_row_activated_before_access and c22_precharged_before_activate, c22_min_separation (ANY two issued commands, any table entry of the relation "
              "same bank / other bank of the group / same rank / other rank), c22_tfaw (four-activate window), c22_acceptor_sound (the boolean evaluators used on "
-             "observed streams mean the same declarative statements), c22_run_is_trace. Tie: (1) the real kernels (tickBanks, getReadyCommand incl. tFAW, "
+             "observed streams mean the same declarative statements), c22_run_is_trace, c22_model_agreement_implies_property (for oracle runs of the real kernels from a clean state, agreement with the model implies the property predicate on the observed stream). Tie: (1) the real kernels (tickBanks, getReadyCommand incl. tFAW, "
              "startCommand, updateTiming, reached through verif-tagged wrappers) driven by a random oracle from clean and arbitrary bank states must agree with the "
              "model on every readiness decision, every progress flag and the final bank-level state; (2) real dram.Comp runs under contended traffic for every preset "
              "and page policy: the issued stream (derived from the existing command-issue milestones + the component State) replayed through the model must reproduce "
